@@ -63,8 +63,17 @@ func (s SurroundingSimilarity) WeightedSimilarity() float64 {
 	parents := s.ParentsSimilarity * s.Options.ParentsWeight
 	spouses := s.SpousesSimilarity * s.Options.SpousesWeight
 	children := s.ChildrenSimilarity * s.Options.ChildrenWeight
+	total := individual + parents + spouses + children
 
-	return individual + parents + spouses + children
+	// The weights sum to 1.0 and no component is greater than 1.0, so only the
+	// rounding of the products and of the additions can take the total above
+	// 1.0 (0.4 + 0.2 + 0.3 + 0.1 is 1.0000000000000002). A similarity is never
+	// more than 1.0.
+	if total > 1 {
+		return 1
+	}
+
+	return total
 }
 
 // String returns the WeightedSimilarity -- a number between 0.0 and 1.0.
